@@ -252,12 +252,16 @@ class Parser:
         return params, collect
 
     # expressions
-    def expr(self):
+    def expr(self, spread_ok=False):
         loc = self.peek().loc if self.peek() else None
         if loc is None: self.fail()
         e = self.tier(0)
-        while self.is_sym('..') and self.range_follows():
+        while self.is_sym('..'):
+            if spread_ok and not self.range_follows(): break
+            # outside list items / arguments / properties a `..` after an expression can only be the range operator: an LR parser
+            # shifts it and reports whatever follows if that cannot start the range's end
             self.p += 1
+            if self.peek() is None: self.fail()
             end = self.tier(0)
             e = N('range', loc, start=e, end=end)
         return e
@@ -315,11 +319,11 @@ class Parser:
             if self.is_sym('..'):
                 if not allow_collect: self.fail()
                 self.p += 1; collect = True
-                e = self.expr(); sp = False
+                e = self.expr(True); sp = False
                 if self.is_sym('..'): self.p += 1; sp = True
                 items.append((e, sp))
                 break          # collect is only allowed on the last item
-            e = self.expr(); sp = False
+            e = self.expr(True); sp = False
             if self.is_sym('..'): self.p += 1; sp = True
             items.append((e, sp))
             if self.is_sym(','): self.p += 1
@@ -347,8 +351,12 @@ class Parser:
         if t.k == 'str': self.p += 1; return N('str', loc, v=t.v, slots=None)
         if t.k == 'istr': self.p += 1; return N('str', loc, v=t.v, slots=t.extra)
         if t.k == 'sym':
-            if t.v == '-' and self.peek(1) is not None and self.peek(1).k == 'int':
-                self.p += 2; v = self.peek(-1).v
+            if t.v == '-':
+                # "-" IntLiteral: once the `-` is in operand position only an integer literal may follow
+                self.p += 1
+                nt = self.peek()
+                if nt is None or nt.k != 'int': self.fail()
+                self.p += 1; v = nt.v
                 if HOLE_INT_BASE <= v < HOLE_INT_BASE + 1000: raise FrontUnspecified('negated hole')
                 return N('int', loc, v=-v)
             if t.v == '(':
@@ -367,11 +375,11 @@ class Parser:
         props = []
         while not self.is_sym('}'):
             if self.is_sym('..'):
-                self.p += 1; e = self.expr(); sp = False
+                self.p += 1; e = self.expr(True); sp = False
                 if self.is_sym('..'): self.p += 1; sp = True
                 props.append(('single', e, sp, True))
             else:
-                e = self.expr()
+                e = self.expr(True)
                 if self.is_sym(':'):
                     self.p += 1; v = self.expr(); props.append(('pair', e, v))
                 else:
